@@ -2085,6 +2085,8 @@ def preprocess_file(
         def_args = def_args.split(",")
         regex = re.compile(rf"\b{def_name}\s*\({','.join(['(.*)']*len(def_args))}\)")
 
+        # The body becomes a replacement template: keep its backslashes literal
+        sub = sub.replace("\\", "\\\\")
         for i, arg in enumerate(def_args, start=1):
             sub = re.sub(rf"\b({arg.strip()})\b", rf"\\{i}", sub)
 
@@ -2302,8 +2304,10 @@ def preprocess_file(
 
             if isinstance(def_regex, tuple):
                 def_regex, value = def_regex
-
-            line_new, nsubs = def_regex.subn(value, line)
+                line_new, nsubs = def_regex.subn(value, line)
+            else:
+                # Object-like macro: the body is literal text, not a template
+                line_new, nsubs = def_regex.subn(lambda _, body=value: body, line)
             if nsubs > 0:
                 log.debug(
                     "%s !!! Macro sub(%d) '%s' -> '%s'",
